@@ -249,6 +249,7 @@ def contract(qual, with_role, noraise=()):
         callees=callees,
         attrs=dict(ATTRS),
         default_effects=True,
+        base_exceptions=True,
         exits=exits,
         min_paths=20,
         trusted=[
